@@ -12,12 +12,15 @@ EXTENDS Naturals, Integers, Sequences, FiniteSets, TLC, Json, IOUtils
 NoCtr == [hi |-> -1, lo |-> 0]
 Cred(id, rp, user) == [id |-> id, rp |-> rp, user |-> user, ctr |-> NoCtr, hm |-> "none"]
 RpChoice == {"r1", "r2", "absent"}
+\* RP IDs that are different strings from r1 but near it (letter case, sub-domain, trailing dot, character suffix):
+\* the contract compares RP IDs exactly
+Near == {"r1case", "r1sub", "r1dot", "r1sfx"}
 Contents ==
     { SelectSeq(<<Cred("c1", a, "u1"), Cred("c2", b, "u1"), Cred("c3", c, "u2")>>, LAMBDA x : x.rp # "absent") :
-        a \in RpChoice, b \in RpChoice, c \in RpChoice }
+        a \in RpChoice, b \in RpChoice, c \in RpChoice \cup Near }
 Lists == { <<>>, <<"c1">>, <<"c2">>, <<"c3">>, <<"x1">>, <<"c1", "c2">>, <<"c2", "c1">>, <<"c1", "c3">>,
            <<"c3", "x1">>, <<"x1", "c2">>, <<"c1", "c2", "c3">> }
-Cases == [content : Contents, ids : Lists, given : BOOLEAN, rp : {"r1", "r2"}]
+Cases == [content : Contents, ids : Lists, given : BOOLEAN, rp : {"r1", "r2"} \cup Near]
 
 ToSet(s) == { s[i] : i \in 1..Len(s) }
 
